@@ -111,8 +111,10 @@ Definition load_rule (y : yaml) : out rule :=
                 | Some d => load_detection d
                 | None => Err ERule
                 end;
-      do tp <- match option_map untag (ylookup key_tp kv) with Some (YSeq l) => Ok l | _ => Err ERule end;
-      do tn <- match option_map untag (ylookup key_tn kv) with Some (YSeq l) => Ok l | _ => Err ERule end;
+      (* a null example list is read as an empty one by Rule::from_value (serde_yaml's unit -> empty
+         sequence); found by the thorough tier of C04 *)
+      do tp <- match option_map untag (ylookup key_tp kv) with Some (YSeq l) => Ok l | Some YNull => Ok [] | _ => Err ERule end;
+      do tn <- match option_map untag (ylookup key_tn kv) with Some (YSeq l) => Ok l | Some YNull => Ok [] | _ => Err ERule end;
       Ok {| r_optimised := opt; r_det := det; r_tp := tp; r_tn := tn |}
   | _ => Err ERule
   end.
